@@ -35,6 +35,8 @@ package packets1
 //@ func ReadPacket
 //@   ensures [C22,C24,C25] decoded: err == nil ==> decoded(pkt)
 //@   nopanic [C20]
+// the buffer handed to the transport holds the largest datagram a peer may send (MaxPacketLen = 8192, the bound the C23 contracts put on every packed packet)
+//@   at Read.0 before assert [C21,C22] buffer_holds_the_largest_datagram: len(arg(1)) >= 8192
 //@   at Unpack.0 before let d = arg(1)
 //@   at NewPacketWithHeader.0 after let created = ret
 //@   at Unpack.1 before assert [C22] body_after_actual_header: sameSlice(arg(1), d[hdrOnWire(d):])
@@ -147,7 +149,8 @@ package packets1
 //@ func (*Disconnect).Unpack
 //@   nopanic [C20]
 //@   assigns p.Duration
-//@   ensures [C22] fields: result == nil ==> (len(buf) == 0 && p.Duration == 0) || (len(buf) == 2 && p.Duration == be16(buf, 0))
+// C14: whether a DISCONNECT is a plain one (duration 0, cancels the will) or the start of a sleep is read from this field
+//@   ensures [C22,C14,C11] fields: result == nil ==> (len(buf) == 0 && p.Duration == 0) || (len(buf) == 2 && p.Duration == be16(buf, 0))
 //@ func (*WillTopicUpd).Unpack
 //@   nopanic [C20]
 //@   assigns p.QOS, p.Retain, p.WillTopic
